@@ -446,3 +446,28 @@ func diffLines(a, b []string) string {
 	}
 	return strings.Join(out, " | ")
 }
+
+// runPrevalidated parses and validates q with ALL features enabled and then executes the resulting
+// document with the request's feature set F (graphql.Request.Document is the documented way to skip
+// re-validation). It returns the resolver log, or ok=false when the document is not valid even with
+// all features (or the library panics, which is not this property's business).
+func runPrevalidated(b *built, w *world, all, features []string, q *query) (log []string, ok bool) {
+	w.log = nil
+	defer func() {
+		if p := recover(); p != nil {
+			log, ok = nil, false
+		}
+	}()
+	doc, errs := graphql.ParseAndValidate(q.Text, b.schema, graphql.NewFeatureSet(all...))
+	if len(errs) > 0 {
+		return nil, false
+	}
+	graphql.Execute(&graphql.Request{
+		Context:        context.Background(),
+		Document:       doc,
+		Schema:         b.schema,
+		Features:       graphql.NewFeatureSet(features...),
+		VariableValues: q.Vars,
+	})
+	return append([]string(nil), w.log...), true
+}
